@@ -208,7 +208,8 @@ def get_local_mcp_servers() -> list[str]:
             data = json.load(f)
         servers = data.get("mcpServers", data)
         if isinstance(servers, dict):
-            names = list(servers.keys())
+            # Names come from a file: keep each on one line
+            names = [" ".join(str(k).split()) for k in servers.keys()]
             log.debug("mcp_local_loaded", path=MCP_LOCAL_PATH, servers=names)
             return names
         log.warning("mcp_local_invalid_format", path=MCP_LOCAL_PATH)
